@@ -1,4 +1,4 @@
-//! Operations for C09/C08 (see ops.rs). Fill in: return Some(outcome) for the ops this module owns.
+//! Duration operations (C09 without a reference, C08 relative to a plain date).
 use crate::js::{self, big, int};
 use crate::ops::{utc, FS};
 use crate::proj::*;
@@ -7,8 +7,21 @@ use temporal_rs::options::*;
 use temporal_rs::*;
 
 pub fn exec(op: &str, a: &Value) -> Option<Value> {
-    let _ = a;
-    match op {
-        _ => None,
-    }
+    let rel = |a: &Value| arg_relative(a.get("rel").unwrap_or(&Value::Null));
+    Some(match op {
+        "Duration.new" => run(|| arg_duration(&a["dur"]), p_duration),
+        "DateDuration.new" => run(|| { let d = &a["dur"]; DateDuration::new(ff(&d["y"]), ff(&d["mo"]), ff(&d["w"]), ff(&d["d"])) },
+            |d| json!({"y": js::big_f64(d.years.as_inner()), "mo": js::big_f64(d.months.as_inner()), "w": js::big_f64(d.weeks.as_inner()), "d": js::big_f64(d.days.as_inner())})),
+        "TimeDuration.new" => run(|| { let d = &a["dur"]; TimeDuration::new(ff(&d["h"]), ff(&d["mi"]), ff(&d["s"]), ff(&d["ms"]), ff(&d["us"]), ff(&d["ns"])) },
+            |d| json!({"h": js::big_f64(d.hours.as_inner()), "mi": js::big_f64(d.minutes.as_inner()), "s": js::big_f64(d.seconds.as_inner()), "ms": js::big_f64(d.milliseconds.as_inner()), "us": js::big_f64(d.microseconds.as_inner()), "ns": js::big_f64(d.nanoseconds.as_inner())})),
+        "Duration.negated" => run(|| Ok(arg_duration(&a["recv"])?.negated()), p_duration),
+        "Duration.abs" => run(|| Ok(arg_duration(&a["recv"])?.abs()), p_duration),
+        "Duration.sign" => run(|| Ok(arg_duration(&a["recv"])?.sign()), |s| json!(*s as i8)),
+        "Duration.add" => run(|| arg_duration(&a["recv"])?.add(&arg_duration(&a["other"])?), p_duration),
+        "Duration.subtract" => run(|| arg_duration(&a["recv"])?.subtract(&arg_duration(&a["other"])?), p_duration),
+        "Duration.compare" => run(|| FS.with(|p| arg_duration(&a["recv"])?.compare_with_provider(&arg_duration(&a["other"])?, rel(a)?, p)), |o| p_ord(*o)),
+        "Duration.round" => run(|| FS.with(|p| arg_duration(&a["recv"])?.round_with_provider(arg_rounding(&a["st"])?, rel(a)?, p)), p_duration),
+        "Duration.total" => run(|| FS.with(|p| arg_duration(&a["recv"])?.total_with_provider(arg_unit(js::s(a, "unit")), rel(a)?, p)), |t| p_f64(t.as_inner())),
+        _ => return None,
+    })
 }
